@@ -99,3 +99,45 @@ def cls_closed_multi(kind, mu, ns, ss, bs, lo=0.0, hi=10.0):
     band = [norm.cdf(-N - sA) / norm.cdf(-N) for N in (2, 1, 0, -1, -2)]
     band_sb = [norm.cdf(-N - sA) for N in (2, 1, 0, -1, -2)]
     return float(clsb), float(clb), float(clsb / clb), [float(x) for x in band], [float(x) for x in band_sb], q, qA
+
+
+# ---- on/off model: SR n ~ Pois(mu s + k b), CR m ~ Pois(k tau b), k a free normalisation (profiled in closed form)
+def onoff_spec(s, b, tau, k_fixed=None):
+    spec = {'channels': [
+        {'name': 'CR', 'samples': [{'name': 'bkg', 'data': [float(tau * b)], 'modifiers': [{'name': 'k_bkg', 'type': 'normfactor', 'data': None}]}]},
+        {'name': 'SR', 'samples': [
+            {'name': 'signal', 'data': [float(s)], 'modifiers': [{'name': 'mu', 'type': 'normfactor', 'data': None}]},
+            {'name': 'bkg', 'data': [float(b)], 'modifiers': [{'name': 'k_bkg', 'type': 'normfactor', 'data': None}]}]}], 'parameters': []}
+    if k_fixed is not None: spec['parameters'].append({'name': 'k_bkg', 'fixed': bool(k_fixed), 'inits': [1.0], 'bounds': [[0.0, 10.0]]})
+    return spec
+
+
+def onoff_khat(mu, n, m, s, b, tau):
+    """conditional maximum-likelihood normalisation for a given signal strength (positive root of the score equation)"""
+    A = (1 + tau) * b * b; B = (1 + tau) * b * mu * s - (n + m) * b; C = -m * mu * s
+    return (-B + math.sqrt(B * B - 4 * A * C)) / (2 * A)
+
+
+def onoff_two_nll(mu, k, n, m, s, b, tau):
+    return two_nll_1(n, mu * s + k * b) + two_nll_1(m, k * tau * b)
+
+
+def onoff_qtilde(mu, n, m, s, b, tau):
+    """q-tilde of the on/off model with the normalisation profiled (POI bounds [0, 10]; the free optimum reproduces both counts)"""
+    kh = m / (tau * b); mh = (n - kh * b) / s
+    if mh < 0: mh = 0.0; kh = onoff_khat(0.0, n, m, s, b, tau)
+    if mh > mu: return 0.0
+    return max(0.0, onoff_two_nll(mu, onoff_khat(mu, n, m, s, b, tau), n, m, s, b, tau) - onoff_two_nll(mh, kh, n, m, s, b, tau))
+
+
+def onoff_cls(mu, n, m, s, b, tau):
+    """observed CLs, five-point expected band and the Asimov data of the on/off model (q-tilde, Asimov at the background-only conditional fit)"""
+    q = onoff_qtilde(mu, n, m, s, b, tau)
+    k0 = onoff_khat(0.0, n, m, s, b, tau)
+    nA, mA = k0 * b, k0 * tau * b
+    qA = onoff_qtilde(mu, nA, mA, s, b, tau)
+    sq, sA = math.sqrt(q), math.sqrt(qA)
+    if sq <= sA: clsb, clb = norm.cdf(-sq), norm.cdf(-(sq - sA))
+    else: clsb, clb = norm.cdf(-(q + qA) / (2 * sA)), norm.cdf(-(q - qA) / (2 * sA))
+    band = [float(norm.cdf(-N - sA) / norm.cdf(-N)) for N in (2, 1, 0, -1, -2)]
+    return float(clsb / clb), band, [mA, nA]
